@@ -638,4 +638,37 @@ theorem insertInline_never_raises_flat (S : Schema) (hS : S ∈ familySchemas) (
     (family_labelsOK _ hS) (family_leafOk _ hS) (family_textStableC _ hS) (family_closable _ hS)
     (family_textAbsorb _ hS) doc f t sl hsl hslv hsn hv hdoc hn hattrs hft hpf hpt hne htr
 
+/-- `PM.C11.replace_applies_direct` with its schema guards discharged for the bundled schema family -/
+theorem replace_applies_direct (S : Schema) (hS : S ∈ familySchemas) (doc : Node) (f t : Nat) (sl : Slice)
+    (hv : C01.Valid S doc) (hdoc : C01.IsElem doc) (hn : fnorm doc.kids = true)
+    (hattrs : S.nodeAttrsOK doc = true) (hhc : highClosedKids doc.kids = true) (hft : f ≤ t)
+    (hpf : pairAligned doc f = true) (hpt : pairAligned doc t = true) (hdir : directFitB S doc f sl = true)
+    (hslv : sl.closedValid S = true) (hsn : fnorm sl.content = true) (hshc : highClosedKids sl.content = true)
+    (st : Step) (h : replaceStep S doc f t sl = .ok (some st)) :
+    ∃ doc', S.apply st doc = .ok doc' :=
+  PM.C11.replace_applies_direct S (family_det _ hS) (family_fillersOK _ hS) (family_leafOk _ hS)
+    (family_closable _ hS) (family_textStableC _ hS) (family_textAbsorb _ hS) (family_joinCompat _ hS)
+    (family_reopenOK _ hS) (family_inlineUniform _ hS) doc f t sl hv hdoc hn hattrs hhc hft hpf hpt hdir hslv
+    hsn hshc st h
+
+/-- `PM.C11.insertInline_never_raises_direct_partial` with its schema guards discharged for the bundled schema family -/
+theorem insertInline_never_raises_direct_partial (S : Schema) (hS : S ∈ domFamilySchemas) (doc : Node)
+    (f t : Nat) (sl : Slice) (hsl : sl.inlineLeaves S = true) (hslv : sl.closedValid S = true)
+    (hsn : fnorm sl.content = true) (hshc : highClosedKids sl.content = true) (hv : C01.Valid S doc)
+    (hdoc : C01.IsElem doc) (hn : fnorm doc.kids = true) (hattrs : S.nodeAttrsOK doc = true)
+    (hhc : highClosedKids doc.kids = true) (htop : S.isTextblockO (S.tyOf doc) = false) (hft : f ≤ t)
+    (ht : t ≤ fsize doc.kids) (hpf : pairAligned doc f = true) (hpt : pairAligned doc t = true)
+    (hdir : directFitB S doc f sl = true) :
+    replaceStep S doc f t sl = .ok none ∨
+    ∃ st doc', replaceStep S doc f t sl = .ok (some st) ∧ S.apply st doc = .ok doc' ∧ C01.Valid S doc' ∧
+    Kept (ftoks doc.kids) (ftoks doc'.kids) f t (textUnits (sliceToks' sl)) :=
+  PM.C11.insertInline_never_raises_direct_partial S (family_det _ (domFamily_sub _ hS))
+    (family_fillersOK _ (domFamily_sub _ hS)) (family_wrapOK _ (domFamily_sub _ hS))
+    (family_labelsOK _ (domFamily_sub _ hS)) (family_leafOk _ (domFamily_sub _ hS))
+    (family_textStableC _ (domFamily_sub _ hS)) (family_closable _ (domFamily_sub _ hS))
+    (family_textStable _ hS) (family_textAbsorb _ (domFamily_sub _ hS))
+    (family_joinCompat _ (domFamily_sub _ hS)) (family_reopenOK _ (domFamily_sub _ hS))
+    (family_inlineUniform _ (domFamily_sub _ hS)) doc f t sl hsl hslv hsn hshc hv hdoc hn hattrs hhc htop hft ht
+    hpf hpt hdir
+
 end PM.Family.C11
